@@ -79,6 +79,10 @@ def run_once(ctx):
             if k["status"] != "skipped" and not k.get("base_ok", True):
                 res.findings.append(Finding("boot:example-config-does-not-start",
                                             "the configuration derived from config-example.toml does not start", {"engine": "boot"}))
+            for a in k.get("broken_assertions") or []:
+                res.findings.append(Finding("boot:setting-not-honoured:" + a[len("assert:"):],
+                                            "documented semantics violated under the configuration derived from config-example.toml: " + a,
+                                            {"engine": "boot"}))
             if k.get("framing"):
                 res.findings.append(Finding("boot:welcome-burst-framing", "mis-framed line in the welcome burst: %s" % k["framing"][:2],
                                             {"engine": "boot"}))
